@@ -34,7 +34,9 @@ ENV_FOREIGN = {'env': {'LANG': 'de_DE.UTF-8', 'LC_ALL': 'de_DE.UTF-8',
                        'LC_MESSAGES': 'de_DE.UTF-8', 'LANGUAGE': 'de',
                        'TZ': 'Asia/Kathmandu', 'PYTHONHASHSEED': '4242',
                        'PYTHONUTF8': '0'}}
-W_ERROR = {'warnings': 'error'}
+# python -W error -bb: every warning is an error, and bytes/str confusion
+# inside the library (str(bytes), bytes == str) warns
+W_ERROR = {'warnings': 'error', 'pyflags': ['-bb']}
 LOG_DEBUG = {'logging': 'debug'}
 PY_O = {'pyflags': ['-O']}
 
@@ -96,8 +98,50 @@ def lib_unmarshal(data, **kw):
     return call(frame.unmarshal, data, **kw)
 
 
+LOOKALIKES = [0, 0]      # [calls, calls preceded by look-alike frames]
+
+
+def marshal_lookalikes(channel, payload_len, skip_kind=None):
+    """Marshal frames of OTHER kinds that share the channel and the exact
+    payload size with a frame about to be judged (outcomes ignored): a memo
+    of 'the last frame header' keyed by too little confuses them."""
+    from pamqp import body, commands, frame, header
+    n = payload_len
+    made = []
+    try:
+        if n >= 8 and skip_kind != 'method':
+            made.append(commands.Connection.Secure('x' * (n - 8)))
+        if skip_kind != 'header':
+            if n == 14:
+                made.append(header.ContentHeader(0, 7))
+            elif 15 <= n <= 270:
+                made.append(header.ContentHeader(
+                    0, 7, commands.Basic.Properties(
+                        content_type='y' * (n - 15))))
+        if n >= 1 and skip_kind != 'body':
+            made.append(body.ContentBody(b'z' * n))
+    except Exception:
+        pass
+    for m in made:
+        call(frame.marshal, m, channel)
+    return len(made)
+
+
 def lib_marshal(obj, channel, **kw):
+    """frame.marshal of a frame that is judged.  Every fourth call the frame
+    is marshalled, then look-alike frames of other kinds (same channel, same
+    payload size) are marshalled, then the frame is marshalled again and
+    that second result is the one judged."""
     from pamqp import frame
+    LOOKALIKES[0] += 1
+    if LOOKALIKES[0] % 4 == 0 and not kw:
+        first = call(frame.marshal, obj, channel)
+        if first.ok and isinstance(first.value, bytes) and \
+                8 <= len(first.value) <= 4096 and \
+                isinstance(channel, int):
+            kind = {1: 'method', 2: 'header', 3: 'body'}.get(first.value[0])
+            if marshal_lookalikes(channel, len(first.value) - 8, kind):
+                LOOKALIKES[1] += 1
     return call(frame.marshal, obj, channel, **kw)
 
 
@@ -349,6 +393,9 @@ def disturb_encoder(rnd, k=2):
     type, bad channel, hostile argument) - whatever they leave behind must
     not reach the next frame."""
     from pamqp import body, commands, frame, header
+    if rnd.random() < 0.5:
+        decode_realistic(rnd, 1, 'Connection.Start' if rnd.random() < 0.7
+                         else None)
     for _ in range(k):
         r = rnd.randrange(10)
         try:
@@ -451,3 +498,67 @@ def encode_twins(v, rnd, k=2, churn=0):
 
 
 _CHURN = [0]
+
+
+def mutate_deep(obj, _seen=None):
+    """In-place change of every mutable container reachable from a value the
+    library returned (tables, arrays, byte arrays, at every nesting level):
+    what a consumer that owns its decoded frames may do.  Returns True when
+    something was changed."""
+    seen = _seen if _seen is not None else set()
+    if id(obj) in seen:
+        return False
+    seen.add(id(obj))
+    changed = False
+    if isinstance(obj, dict):
+        for v in list(obj.values()):
+            changed |= mutate_deep(v, seen)
+        obj['\x7fadded-by-consumer'] = 7
+        for k in list(obj):
+            if isinstance(obj[k], (int, float)) and \
+                    not isinstance(obj[k], bool):
+                obj[k] += 1
+                break
+        return True
+    if isinstance(obj, list):
+        for v in list(obj):
+            changed |= mutate_deep(v, seen)
+        obj.append('added-by-consumer')
+        return True
+    if isinstance(obj, bytearray):
+        obj += b'!'
+        return True
+    return changed
+
+
+class SuffixRec:
+    """A recorder proxy that marks every violation mechanism with a suffix
+    (used for second passes such as 'after the consumer changed the first
+    result')."""
+
+    def __init__(self, rec, suffix):
+        self._rec = rec
+        self._suffix = suffix
+
+    def violation(self, mech, *a, **kw):
+        return self._rec.violation(mech + self._suffix, *a, **kw)
+
+    def __getattr__(self, name):
+        return getattr(self._rec, name)
+
+
+_SESSION = []
+
+
+def decode_realistic(rnd, k=1, only=None):
+    """Decode k frames of a realistic conversation (broker greetings of 28
+    products / versions, tune / open / publish ...), outcomes ignored: what
+    the library learns from a peer must not leak into how it encodes."""
+    if not _SESSION:
+        from ..gen import realistic
+        _SESSION.extend(realistic.session_frames())
+    pool = _SESSION if only is None else \
+        [x for x in _SESSION if x[0] == only] or _SESSION
+    for _ in range(k):
+        _label, data = rnd.choice(pool)
+        lib_unmarshal(data)
